@@ -1,4 +1,106 @@
-use crate::run::{Ctx, Ev};
+//! C16 - after a liquidation, no second position action in the same block.
+use serde_json::json;
+
+use crate::refmodel::mul_div;
+use crate::run::{Ctx, Ev, Runner};
+use crate::types::*;
 use crate::world::World;
-pub fn step(_ctx: &Ctx, _w: &World, _ev: &mut Ev) {}
-pub fn probe(_r: &mut crate::run::Runner) {}
+
+fn restricted(ctx_height: u64, liq_block: u64, pos_block: Option<u64>) -> bool {
+    liq_block == ctx_height && pos_block == Some(ctx_height)
+}
+
+pub fn step(ctx: &Ctx, w: &World, ev: &mut Ev) {
+    if w.cfg.kind != WorldKind::Standard {
+        return;
+    }
+    let v = match &ctx.step.op {
+        Op::Open { vamm, .. } | Op::Close { vamm, .. } => *vamm,
+        _ => return,
+    };
+    let h = ctx.post.height;
+    if ctx.model.liq_block[v] != h {
+        // no liquidation on this vAMM in this block: nobody may be refused for restriction reasons
+        if !ctx.out.ok && ctx.out.err.contains("Only one action allowed") {
+            ev.eval(true, &("no_liq_block", ctx.step.op.kind()), || json!({"op": ctx.step.op.kind(), "error": "Only one action allowed"}));
+            ev.violation("bystander_blocked", &format!("{},no_liquidation_in_block", ctx.step.op.kind()), json!({"height": h, "last_liquidation_block": ctx.model.liq_block[v]}));
+        }
+        return;
+    }
+    let actor = w.resolve(&ctx.step.actor);
+    let pb = ctx.pre.position(v, &actor).map(|p| p.block);
+    let r = restricted(h, ctx.model.liq_block[v], pb);
+    let kind = ctx.step.op.kind();
+    ev.eval(true, &("main", r, kind, ctx.out.ok), || json!({"where": "main_history", "op": kind, "actor": actor, "restricted": r, "accepted": ctx.out.ok, "height": h}));
+    ev.count(if r { "main/restricted_attempt" } else { "main/unrestricted_attempt" });
+    if r && ctx.out.ok {
+        ev.violation("restricted_succeeded", &format!("{},main", kind), json!({"actor": actor, "height": h, "position_block": pb}));
+    }
+    if r && !ctx.out.ok && ctx.pre.dump != ctx.post.dump {
+        ev.violation("restricted_succeeded", &format!("{},state_changed", kind), json!({"actor": actor}));
+    }
+    if !r && !ctx.out.ok && ctx.out.err.contains("Only one action allowed") {
+        ev.violation("bystander_blocked", &format!("{},main", kind), json!({"actor": actor, "height": h, "position_block": pb}));
+    }
+}
+
+/// probes for every trader on every vAMM that saw a liquidation in the current block
+pub fn probe(r: &mut Runner) {
+    if r.w.cfg.kind != WorldKind::Standard {
+        return;
+    }
+    let h = r.obs.height;
+    let d = r.w.d;
+    for v in 0..r.w.addrs.vamms.len() {
+        if r.model.liq_block[v] != h {
+            continue;
+        }
+        let vo = r.obs.vamms[v].clone();
+        if !vo.ok {
+            continue;
+        }
+        let traders = r.w.trading_accounts();
+        for t in traders {
+            let pos = r.obs.position(v, &t).cloned();
+            let is_r = restricted(h, r.model.liq_block[v], pos.as_ref().map(|p| p.block));
+            // a small trade that would normally be accepted
+            let lev = d;
+            let n = (vo.q / 10_000).max(1000);
+            let margin = mul_div(n, d, lev).unwrap_or(n).max(1);
+            let side = match &pos {
+                Some(p) if p.size < 0 => Side::Sell,
+                _ => Side::Buy,
+            };
+            let open = Op::Open { vamm: v, side, margin, leverage: lev, limit: 0 };
+            let funds = crate::gen::native_funds(r, &t, &open);
+            let mut ops = vec![(open, funds)];
+            if pos.as_ref().map(|p| p.size != 0).unwrap_or(false) {
+                ops.push((Op::Close { vamm: v, limit: 0 }, 0));
+            }
+            for (op, f) in ops {
+                let tt = t.clone();
+                let o2 = op.clone();
+                let pre_dump = r.w.dump();
+                let (out, post_dump) = r.fork(|w| {
+                    let out = w.exec(&tt, &o2, f, None);
+                    let dmp = w.dump();
+                    (out, dmp)
+                });
+                let rel = if pos.is_none() { "bystander_no_position" } else if is_r { "touched_this_block" } else { "position_from_earlier_block" };
+                r.ev.eval(true, &("probe", is_r, op.kind(), rel, out.ok), || json!({"where": "fork", "op": op.kind(), "actor": t, "restricted": is_r, "accepted": out.ok, "height": h}));
+                r.ev.count(if is_r { "probe/restricted" } else { "probe/unrestricted" });
+                if is_r {
+                    if out.ok {
+                        r.ev.violation("restricted_succeeded", &format!("{},probe", op.kind()), json!({"actor": t, "height": h, "position_block": pos.as_ref().map(|p| p.block)}));
+                    } else if pre_dump != post_dump {
+                        r.ev.violation("restricted_succeeded", &format!("{},state_changed", op.kind()), json!({"actor": t}));
+                    }
+                } else if !out.ok && out.err.contains("Only one action allowed") {
+                    r.ev.violation("bystander_blocked", &format!("{},probe,{}", op.kind(), rel), json!({"actor": t, "height": h, "position_block": pos.as_ref().map(|p| p.block)}));
+                } else if out.ok {
+                    r.ev.count("probe/unrestricted_accepted");
+                }
+            }
+        }
+    }
+}
